@@ -114,6 +114,16 @@ theorem C26_objects_exact {c : Cfg} {f : File} (h : Inv c f) (hh : ∀ n, c.hash
     ∃ l, objects c f = some l ∧ (∀ n m d, (n, m, d) ∈ l ↔ abs f n = some (m, d)) ∧
       (l.map (·.1)).Nodup := objects_spec h hh
 
+/-- Free-space reuse: on a consistent file `find_empty` answers `None` only if no empty block
+fits, and otherwise picks a fitting empty block of minimal size (so `publish` appends only
+when nothing fits). -/
+theorem C26_reuse_smallest_fit {c : Cfg} {f : File} (h : Inv c f) (size : Nat) :
+    (findEmpty f size = some none ∧ ∀ p s, (⟨p, s, .empty⟩ : Block) ∈ f.blocks → fits s size = false) ∨
+    ∃ es p, findEmpty f size = some (some (es, p)) ∧
+      (⟨p, es, .empty⟩ : Block) ∈ f.blocks ∧ fits es size = true ∧
+      ∀ p' s', (⟨p', s', .empty⟩ : Block) ∈ f.blocks → fits s' size = true → es ≤ s' :=
+  findEmpty_best h size
+
 /-- Because all block sizes are multiples of the page size, `fits` only ever decides
 `object ≤ empty`: the header-size slack in its second clause is immaterial (so e.g. replacing
 its `>=` by `>` does not change the behaviour of the archive — DESIGN.md's first C26 mutation
